@@ -293,6 +293,18 @@ theorem rerun_converges_pull {hash : Bytes → Digest} {env : Env} (henv : EnvOK
   · exact StoreCrash.seq_preserves_inv hcs.2.1
       (exec_seqOK henv hcs.2.1 (.pull reg n m) (opOK_of_noDebris reg n m hreg hdeb))
 
+/-- **What the start-up prune does to download debris.**  In the default configuration (no
+`OLLAMA_NOPRUNE`), when every manifest parses, the start-up sequence leaves no `-partial` file, no
+part record and no temp file in blobs/: whatever half-way state of the part bookkeeping a kill left
+behind is cleared, so the repeated pull starts from scratch. -/
+theorem prune_clears_partials {env : Env} (hnp : env.noPrune = false) (st : Store)
+    (hall : allReadable st = true) :
+    NoPullDebris (restartWith env st) ∧ ∀ k, get (restartWith env st) (.temp k) = none := by
+  have h : restartWith env st = prune st := by
+    unfold restartWith restart; simp [hnp, hall]
+  rw [h]
+  exact ⟨noDebris_prune st, fun k => by rw [get_prune]; simp [keepAtPrune]⟩
+
 /-! ## witnesses of the defects the model shares with the code (F19) -/
 
 def wHash : Bytes → Digest := fun bs => if bs = [1] then "d1" else if bs = [2] then "d2" else "x"
@@ -374,10 +386,8 @@ def wStoreA : Store := [(.blob "d1", .raw [1]), (.man "a", .man wMan1)]
 
 example : EnvOK wHash wEnvA := ⟨rfl, fun bs => by simp [wEnvA, wEnv], fun _ _ h => h⟩
 
-example : Inv wHash wStoreA ∧ allReadable wStoreA = true ∧ NoPullDebris wStoreA ∧
-    (∀ l ∈ wMan2.all, (wReg l.digest).isSome = true) ∧
-    (wPull.exec wEnvA wStoreA).ok = true ∧ (wPull.exec wEnvA wStoreA).effs.length = 17 := by
-  refine ⟨⟨?_, ?_⟩, by decide, ?_, by decide, by decide, by decide⟩
+theorem wStoreA_inv : Inv wHash wStoreA := by
+  refine ⟨?_, ?_⟩
   · intro d c h
     simp [wStoreA, StoreCrash.get] at h
     obtain ⟨hd, hc⟩ := h
@@ -392,8 +402,29 @@ example : Inv wHash wStoreA ∧ allReadable wStoreA = true ∧ NoPullDebris wSto
       simp only [wMan1, Man.all, List.nil_append, List.mem_singleton] at hl
       subst hl; decide
     · simp [ha] at hr
-  · intro d
-    refine ⟨?_, fun k => ?_⟩ <;>
-    · simp [wStoreA, StoreCrash.get]
+
+example : Inv wHash wStoreA ∧ allReadable wStoreA = true ∧ NoPullDebris wStoreA ∧
+    (∀ l ∈ wMan2.all, (wReg l.digest).isSome = true) ∧
+    (wPull.exec wEnvA wStoreA).ok = true ∧ (wPull.exec wEnvA wStoreA).effs.length = 17 := by
+  refine ⟨wStoreA_inv, by decide, ?_, by decide, by decide, by decide⟩
+  intro d
+  refine ⟨?_, fun k => ?_⟩ <;>
+  · simp [wStoreA, StoreCrash.get]
+
+/-- **F26** (`Manifests()` builds its glob pattern from the models path): with a `[` in the path the
+lister sees no manifest and reports no error; the start-up prune of ANY restart — hence of the one
+after a crash — then removes every blob, while model `a` still resolves by name: the invariant is
+lost although the store satisfied it.  (All theorems above are about stores whose models path has no
+glob metacharacter, where the lister and name-based resolution agree.) -/
+theorem F26_blind_lister_prunes_every_blob :
+    Inv wHash wStoreA ∧
+    readable (pruneBlind wStoreA) "a" = some wMan1 ∧
+    get (pruneBlind wStoreA) (.blob "d1") = none ∧
+    ¬ NameInv wHash (pruneBlind wStoreA) := by
+  refine ⟨wStoreA_inv, by decide, by decide, ?_⟩
+  intro h
+  obtain ⟨bs, hb, _⟩ := h "a" wMan1 (by decide) ⟨"d1", 1⟩ (by decide)
+  have : get (pruneBlind wStoreA) (.blob "d1") = none := by decide
+  rw [this] at hb; cases hb
 
 end OllamaVerif.C12
